@@ -259,10 +259,18 @@ def scenarios(fam, ref):
                 g[idx] = SReal(z3.Real('g_%d_%d_%d_%d' % idx))
             feq = sym_mat('feq', 2, 3)
             w = sym_vec('w', 3)
-            r1 = np.empty((2, 2, 2), dtype=object)
+            if getattr(ctx, 'float_mode', False):
+                # the density grids of the solver are complex and hold the previous step's modes when the kernels are called
+                g, feq, w = np.array(g, dtype=float), np.array(feq, dtype=float), np.array(w, dtype=float)
+                r1 = np.full((2, 2, 2), 3.0 + 4.0j)
+                r2 = np.full((2, 2, 2), -1.0 + 2.0j)
+            else:
+                r1 = np.empty((2, 2, 2), dtype=object)
+                r2 = np.empty((2, 2, 2), dtype=object)
             mod.get_perturbed_rho(r1, feq, g, w)
-            r2 = np.empty((2, 2, 2), dtype=object)
             mod.get_rho(r2, g, w)
+            if getattr(ctx, 'float_mode', False):
+                return list(r1.ravel().real) + list(r1.ravel().imag) + list(r2.ravel().real) + list(r2.ravel().imag)
             return list(r1.ravel()) + list(r2.ravel())
         out.append(('density kernels', run))
     elif fam == 'adv':
@@ -271,33 +279,38 @@ def scenarios(fam, ref):
                 def run(mod, ctx):
                     from lib import splineoracle as SO
                     ncells = 3
+                    fm = getattr(ctx, 'float_mode', False)          # float replay: plain numpy floats
+                    KK = (lambda v: float(v)) if fm else K
+                    karr = (lambda vs: np.array([float(v) for v in vs])) if fm else numenv.karr
+                    farr = (lambda vs: np.array([float(v) for v in vs])) if fm else arr
                     if cub:
-                        kn = numenv.karr([Fr(-2), Fr(1), Fr(1), ncells])
+                        kn = karr([Fr(-2), Fr(1), Fr(1), ncells])
                         vmin, vmax = Fr(-2), Fr(1)
                     else:
                         br = [Fr(-2), Fr(-1), Fr(1, 2), Fr(1)]
-                        kn = numenv.karr(SO.math_knots(br, 3, False))
+                        kn = karr(SO.math_knots(br, 3, False))
                         vmin, vmax = br[0], br[-1]
                     c = sym_vec('c', ncells + 3)
                     s = SReal(z3.Real('s'))
                     ctx.assume(z3.And(s.t >= -4, s.t <= 4))
                     r = SReal(z3.Real('r'))
                     ctx.assume(r.t > 0)
-                    cn = [K(getattr(Consts, k)) for k in ('CN0', 'kN0', 'deltaRN0', 'rp', 'CTi', 'kTi', 'deltaRTi')]
+                    cn = [KK(getattr(Consts, k)) for k in ('CN0', 'kN0', 'deltaRN0', 'rp', 'CTi', 'kTi', 'deltaRTi')]
                     res = []
                     for bound in (0, 1, 2):
-                        f = np.empty(2, dtype=object)
-                        pts = arr([K(Fr(-1, 2)) - s, K(Fr(3, 4)) - s])
-                        mod.v_parallel_advection_eval_step(f, pts, r, K(vmin), K(vmax), kn, 3, c, *cn, bound, cub)
+                        f = np.zeros(2) if fm else np.empty(2, dtype=object)
+                        pts = farr([KK(Fr(-1, 2)) - s, KK(Fr(3, 4)) - s])
+                        cc = np.array(c, dtype=float) if fm else c
+                        mod.v_parallel_advection_eval_step(f, pts, float(r) if fm else r, KK(vmin), KK(vmax), kn, 3, cc, *cn, bound, cub)
                         res += list(f)
                     # flux_advection and get_lagrange_vals on a small surface
                     nq, nz = 3, 4
-                    vals = np.empty((nz, nq, 3), dtype=object)
+                    vals = np.zeros((nz, nq, 3)) if fm else np.empty((nz, nq, 3), dtype=object)
                     for idx in itertools.product(range(nz), range(nq), range(3)):
                         vals[idx] = SReal(z3.Real('v_%d_%d_%d' % idx))
                     co = sym_vec('l', 3)
-                    f2 = np.empty((nq, nz), dtype=object)
-                    mod.flux_advection(nq, nz, f2, co, vals)
+                    f2 = np.zeros((nq, nz)) if fm else np.empty((nq, nz), dtype=object)
+                    mod.flux_advection(nq, nz, f2, np.array(co, dtype=float) if fm else co, vals)
                     res += list(f2.ravel())
                     return res
                 return run
@@ -421,7 +434,14 @@ def work(item):
                 continue
             res['obligations'] += 1
             if kind == 'exc':
-                res['inconclusive'].append('exception %s: %s (%s, %s)' % (type(val).__name__, str(val)[:150], copy_rel, label))
+                # an exception on the symbolic run (the object-array model is not numpy for every operation a copy may use, e.g.
+                # complex .real views): decided by running reference and copy on real numpy arrays
+                prob = float_disagreement(fam, copy_rel, label, {})
+                if prob:
+                    res['violations'].append(('copies:%s' % copy_rel, '%s and its reference disagree in scenario "%s": %s (symbolic run raised %s: %s)' % (
+                        copy_rel, label, prob, type(val).__name__, str(val)[:80]), dict(kind='copy', copy=copy_rel, scenario=label, concrete=prob)))
+                else:
+                    res['inconclusive'].append('exception %s: %s (%s, %s)' % (type(val).__name__, str(val)[:150], copy_rel, label))
                 continue
             a, b = val
             if b is None:
@@ -457,7 +477,11 @@ def work(item):
             else:
                 # no verdict (uninterpreted exp/tanh at different arguments inside non-linear terms): a concrete float run of both
                 # functions may still exhibit the disagreement, which is then a witness in its own right
-                prob = float_disagreement(fam, copy_rel, label, {})
+                pin = {}
+                if ctx.check() == 'sat':
+                    pm = ctx.model()
+                    pin = {str(d): str(pm[d]) for d in pm.decls() if len(str(d)) <= 3}       # a point of this path (x, y, s, r)
+                prob = float_disagreement(fam, copy_rel, label, pin) or float_disagreement(fam, copy_rel, label, {})
                 if prob:
                     res['violations'].append(('copies:%s' % copy_rel, '%s and its reference disagree in scenario "%s": %s (solver verdict unknown; witness from the float run)' % (copy_rel, label, prob),
                                               dict(kind='copy', copy=copy_rel, scenario=label, concrete=prob)))
@@ -518,12 +542,24 @@ def float_disagreement(fam, copy_rel, label, inputs):
             def __gt__(self, o): return True
         globals()['SReal'] = fake_sreal
         z3.Real = fake_real
+        # every module involved computes with the real elementary functions during the float run, whatever was injected before
+        import math
+        swapped = []
+        mods_ = [ref, cp] + list(_LOADED.values()) + [m_ for n_, m_ in list(sys.modules.items()) if n_.startswith('pythran_') or n_.startswith('pygyro.initialisation.initialiser_funcs')]
+        for m_ in mods_:
+            for nm in ('exp', 'tanh', 'sqrt', 'cos', 'sin', 'log'):
+                cur = vars(m_).get(nm)
+                if cur is not None and cur is not getattr(math, nm) and cur is not getattr(np, nm):
+                    swapped.append((m_, nm, cur))
+                    setattr(m_, nm, getattr(np, nm))
         try:
             a = scen(ref, FakeCtx())
             b = scen(cp, FakeCtx())
         finally:
             globals()['SReal'] = orig_sreal
             z3.Real = orig_real
+            for m_, nm, cur in swapped:
+                setattr(m_, nm, cur)
         worst = 0.0
         for u, w in zip(a, b):
             try:
@@ -532,6 +568,8 @@ def float_disagreement(fam, copy_rel, label, inputs):
                 pass
         if worst > 1e-9:
             return 'float outputs differ by %.3g' % worst
+        return None
+    except symx.Abort as e:
         return None
     except Exception as e:
         return 'copy raises %s: %s' % (type(e).__name__, str(e)[:120])
